@@ -12,9 +12,13 @@ def run(chk):
                 "content starting after the tag line, on the tag's own line, and (empty blocks) inside one comment; "
                 "non-trivial = block with >= 2 lines")
     chk.exhaustive = True
-    cfg = rc.set_consts("MC_C09", MaxLen=4 if quick else 6, MaxN=5 if quick else 7)
-    res = vlib.run_tlc("MC_C09", cfg_text=cfg, timeout=1500, heap="12g")
-    chk.add_tlc(res, "MC_C09")
-    rc.replay(chk, res.cases, layouts=("line", "inline", "inline2", "same", "mltag", "combo"), cli_sample=150 if quick else 1000)
+    # quick: blocks of <= 4 lines incl. a line of non-ASCII white space; thorough: that, plus <= 6 lines without it
+    for (ml, mn, uws) in ([(4, 5, "TRUE")] if quick else [(4, 7, "TRUE"), (6, 7, "FALSE")]):
+        cfg = rc.set_consts("MC_C09", MaxLen=ml, MaxN=mn, WithUws=uws)
+        res = vlib.run_tlc("MC_C09", cfg_text=cfg, timeout=3000, heap="12g")
+        chk.add_tlc(res, "MC_C09 MaxLen=%d MaxN=%d WithUws=%s" % (ml, mn, uws))
+        rc.replay(chk, res.cases, layouts=("line", "inline", "inline2", "same", "mltag", "combo"), cli_sample=150 if quick else 1000,
+                  label="u%d" % ml)
+        res.cases = None
     from props import rules_long
     rules_long.run(chk, "count", n=300 if quick else 3000)
